@@ -417,6 +417,12 @@ func solve(dir, base, text string, timeoutSec int) (SolverResult, []SolverResult
 				vs = append(vs, variant{fmt.Sprintf("subset%d", rounds), pt})
 			}
 		}
+		if pt, ok := pruneQueryQ(stripped, 2, true); ok {
+			vs = append(vs, variant{"subsetq", pt})
+			if lt, ok := latestQuantOnly(pt); ok {
+				vs = append(vs, variant{"subsetql", lt})
+			}
+		}
 		if len(vs) > 0 {
 			vctx, vcancel := context.WithCancel(context.Background())
 			vch := make(chan SolverResult, len(vs))
@@ -562,7 +568,12 @@ func splitTopAnd(body string) []string {
 // assumption dropped that mentions a heap component (F$…/E$…) unrelated to
 // the goal (the last assertion). rounds widens "related" through small
 // quantifier-free assumptions. ok is false when nothing could be dropped.
-func pruneQuery(text string, rounds int) (string, bool) {
+func pruneQuery(text string, rounds int) (string, bool) { return pruneQueryQ(text, rounds, false) }
+
+// pruneQueryQ: with strictQuant, a QUANTIFIED assumption is kept only if every
+// heap component it mentions occurs in the goal itself (the widening through
+// quantifier-free assumptions applies to quantifier-free assumptions only).
+func pruneQueryQ(text string, rounds int, strictQuant bool) (string, bool) {
 	lines := strings.Split(text, "\n")
 	goalIdx := -1
 	for i, l := range lines {
@@ -584,12 +595,19 @@ func pruneQuery(text string, rounds int) (string, bool) {
 	var asserts []int // indices into out of assumption lines
 	for i, l := range lines {
 		if i != goalIdx && strings.HasPrefix(l, "(assert (and ") && strings.HasSuffix(l, ")") {
-			for _, p := range splitTopAnd(l[len("(assert ") : len(l)-1]) {
-				for _, q := range splitTopAnd(p) {
+			var flat func(q string, depth int)
+			flat = func(q string, depth int) {
+				parts := splitTopAnd(q)
+				if len(parts) == 1 || depth > 6 {
 					asserts = append(asserts, len(out))
 					out = append(out, "(assert "+q+")")
+					return
+				}
+				for _, p := range parts {
+					flat(p, depth+1)
 				}
 			}
+			flat(l[len("(assert "):len(l)-1], 0)
 			continue
 		}
 		if i != goalIdx && strings.HasPrefix(l, "(assert ") {
@@ -598,6 +616,7 @@ func pruneQuery(text string, rounds int) (string, bool) {
 		out = append(out, l)
 	}
 	rel := comps(lines[goalIdx])
+	rel0 := comps(lines[goalIdx])
 	for r := 0; r < rounds; r++ {
 		for _, ai := range asserts {
 			l := out[ai]
@@ -624,8 +643,12 @@ func pruneQuery(text string, rounds int) (string, bool) {
 	dropped := 0
 	drop := map[int]bool{}
 	for _, ai := range asserts {
+		use := rel
+		if strictQuant && strings.Contains(out[ai], "(forall ") {
+			use = rel0
+		}
 		for c := range comps(out[ai]) {
-			if !rel[c] {
+			if !use[c] {
 				drop[ai] = true
 				dropped++
 				break
@@ -644,6 +667,57 @@ func pruneQuery(text string, rounds int) (string, bool) {
 		b.WriteByte('\n')
 	}
 	return b.String(), true
+}
+
+var verSuffixRe = regexp.MustCompile(`[!@]q?\d+`)
+
+// latestQuantOnly: of the quantified assumptions that differ only in the
+// versions of the heap components and constants they mention (the same clause
+// re-established after successive calls), only the last one is kept.
+func latestQuantOnly(text string) (string, bool) {
+	lines := strings.Split(text, "\n")
+	goalIdx := -1
+	for i, l := range lines {
+		if strings.HasPrefix(l, "(assert ") {
+			goalIdx = i
+		}
+	}
+	shape := func(l string) string {
+		// the first quantified sub-formula, versions erased
+		k := strings.Index(l, "(forall ")
+		d := 0
+		for j := k; j < len(l); j++ {
+			switch l[j] {
+			case '(':
+				d++
+			case ')':
+				d--
+				if d == 0 {
+					return verSuffixRe.ReplaceAllString(l[k:j+1], "")
+				}
+			}
+		}
+		return verSuffixRe.ReplaceAllString(l[k:], "")
+	}
+	last := map[string]int{}
+	for i, l := range lines {
+		if i != goalIdx && strings.HasPrefix(l, "(assert ") && strings.Contains(l, "(forall ") && !strings.Contains(l, ":pattern") {
+			last[shape(l)] = i
+		}
+	}
+	dropped := false
+	var b strings.Builder
+	for i, l := range lines {
+		if i != goalIdx && strings.HasPrefix(l, "(assert ") && strings.Contains(l, "(forall ") && !strings.Contains(l, ":pattern") {
+			if last[shape(l)] != i {
+				dropped = true
+				continue
+			}
+		}
+		b.WriteString(l)
+		b.WriteByte('\n')
+	}
+	return b.String(), dropped
 }
 
 var backwardAllocRe = regexp.MustCompile(`(\(assert \(forall \(\(r Ref\)\) \(! \(=> \(select (alloc[!@]\d+) r\) \(select (alloc[!@]\d+) r\)\) :pattern \(\(select (alloc[!@]\d+) r\)\)) :pattern \(\(select (alloc[!@]\d+) r\)\)\)\)\)`)
